@@ -8,7 +8,7 @@ the ballot table; under autocorrect the ballot fold keeps `keys multiplicity = b
 duplicate-free, and never touches the header.
 -/
 namespace PrefVerif.C16
-open PrefVerif PrefVerif.Py PrefVerif.InstanceIO PrefVerif.Spec PrefVerif.IOL
+open PrefVerif PrefVerif.Py PrefVerif.InstanceIO PrefVerif.Spec PrefVerif.IOL PrefVerif.IOLw
 
 /-! ## generic folds in `Except` -/
 
